@@ -4,11 +4,11 @@ evaluation logs (/tmp/seedconf, /tmp/seedeval).  Run once per evaluation; result
 import json, os, re, shutil, sys
 HERE = os.path.dirname(os.path.abspath(__file__))
 ROUND = sys.argv[1] if len(sys.argv) > 1 else "1"
-SEED, CONF, EVAL = {"1": "/tmp/seed", "2": "/tmp/seed2", "3": "/tmp/seed3"}[ROUND], "/tmp/seedconf", "/tmp/seedeval"
-PRE = {"1": "", "2": "r2-", "3": "r3-"}[ROUND]
-CPRE = {"1": "", "2": "r2_", "3": "r3_"}[ROUND]
+SEED, CONF, EVAL = {"1": "/tmp/seed", "2": "/tmp/seed2", "3": "/tmp/seed3", "4": "/tmp/seed4"}[ROUND], "/tmp/seedconf", "/tmp/seedeval"
+PRE = {"1": "", "2": "r2-", "3": "r3-", "4": "r4-"}[ROUND]
+CPRE = {"1": "", "2": "r2_", "3": "r3_", "4": "r4_"}[ROUND]
 res = {}
-for l in open(os.path.join(EVAL, {"1": "results.txt", "2": "results2.txt", "3": "results_r3.txt"}[ROUND])):
+for l in open(os.path.join(EVAL, {"1": "results.txt", "2": "results2.txt", "3": "results_r3.txt", "4": "results_r4.txt"}[ROUND])):
     m = re.match(r"(C\d+)-(\d) (C\d+) exit=(\d+) viol=(\d+) secs=(\d+)", l)
     if m:
         res.setdefault((m.group(1), m.group(2)), []).append(dict(check=m.group(3), exit=int(m.group(4)), violations=int(m.group(5)), secs=int(m.group(6))))
@@ -39,10 +39,10 @@ for (pid, k), ev in sorted(res.items()):
     json.dump(meta, open(os.path.join(d, "meta.json"), "w"), indent=1)
     first = notes.strip().splitlines()[0].lstrip("# ").strip() if notes.strip() else ""
     rows.append((PRE + pid, k, first[:110], ", ".join("%s:%s" % (e["check"], {0: "missed", 1: "CAUGHT", 2: "harness-error", 3: "inconclusive"}.get(e["exit"], e["exit"])) for e in ev)))
-with open(os.path.join(HERE, "seeded", {"1": "RESULTS.md", "2": "RESULTS-round2.md", "3": "RESULTS-round3.md"}[ROUND]), "w") as fh:
+with open(os.path.join(HERE, "seeded", {"1": "RESULTS.md", "2": "RESULTS-round2.md", "3": "RESULTS-round3.md", "4": "RESULTS-round4.md"}[ROUND]), "w") as fh:
     fh.write("# Seeded breaking changes and the checks that catch them\n\nEvery change compiles, keeps the baseline suite at 46 passed + the 5 baseline failures, and makes its own demonstration fail (confirmed in a scratch worktree at HEAD).  `CAUGHT` = the quick check exits 1 with replayed `VIOLATION` lines.\n\n| seed | what it is | quick checks run |\n|---|---|---|\n")
     for r in rows:
         fh.write("| %s-%s | %s | %s |\n" % r)
     n = len(rows); c = sum(1 for r in rows if "CAUGHT" in r[3])
     fh.write("\n%d of %d seeds are caught by at least one quick check.\n" % (c, n))
-print(open(os.path.join(HERE, "seeded", {"1": "RESULTS.md", "2": "RESULTS-round2.md", "3": "RESULTS-round3.md"}[ROUND])).read()[-400:])
+print(open(os.path.join(HERE, "seeded", {"1": "RESULTS.md", "2": "RESULTS-round2.md", "3": "RESULTS-round3.md", "4": "RESULTS-round4.md"}[ROUND])).read()[-400:])
